@@ -296,6 +296,35 @@ def desugar_for(src, loop, n, kind, ed, rules, where):
     ed.insert(s[lo_].end, bind, 0)
     rules["R14"] = rules.get("R14", 0) + 1
 
+
+# ----------------------------------------------------------------------------------------------
+# R15: destructuring assignment `(a, b) = EXPR;` (not ingested by this Verus build) is written
+# `let vx_tN = EXPR; a = vx_tN.0; b = vx_tN.1;` - the meaning Rust gives it.  Opt-in per function /
+# slice (`//@desugar-tuple-assign`); only the form with two plain identifiers is handled.
+# ----------------------------------------------------------------------------------------------
+def desugar_tuple_assign(src, lo, hi, ed, rules):
+    s = src.sig
+    n = 0
+    i = lo
+    while i + 6 < hi:
+        if src.is_p(i, "(") and src.is_id(i + 1) and src.is_p(i + 2, ",") and src.is_id(i + 3) and src.is_p(i + 4, ")") \
+                and src.is_p(i + 5, "=") and not src.is_p(i + 6, "=") \
+                and (src.is_p(i - 1, ";") or src.is_p(i - 1, "{") or src.is_p(i - 1, "}")):
+            j = i + 6
+            while j < hi and not src.is_p(j, ";"):
+                j = src.skip_group(j) if s[j].text in "([{" else j + 1
+            if j >= hi:
+                break
+            n += 1
+            a, b = s[i + 1].text, s[i + 3].text
+            ed.replace(s[i].start, s[i + 5].end, "let vx_t%d =" % n, 2)
+            ed.insert(s[j].end, " %s = vx_t%d.0; %s = vx_t%d.1;" % (a, n, b, n), 2)
+            rules["R15"] = rules.get("R15", 0) + 1
+            i = j + 1
+            continue
+        i += 1
+    return n
+
 # ----------------------------------------------------------------------------------------------
 # output builder with line map
 # ----------------------------------------------------------------------------------------------
@@ -436,7 +465,7 @@ class Generator:
                         if c2 == "endfn":
                             break
                         if c2 in ("sig", "loop", "body-start", "body-end", "loop-start", "loop-end",
-                                  "before", "after", "replace-type", "decl", "closure", "opaque-closure", "desugar-for"):
+                                  "before", "after", "replace-type", "decl", "closure", "opaque-closure", "desugar-for", "desugar-tuple-assign"):
                             cur = {"cmd": c2, "arg": a2, "lines": [], "line0": j + 2}
                             sections.append(cur)
                         else:
@@ -854,7 +883,7 @@ class Generator:
         probe_points = []
         for sec in sections:
             text = "\n".join(sec["lines"]).rstrip()
-            if not text.strip() and sec["cmd"] not in ("sig", "desugar-for"):
+            if not text.strip() and sec["cmd"] not in ("sig", "desugar-for", "desugar-tuple-assign"):
                 continue
             cmd = sec["cmd"]
             sarg = sec["arg"]
@@ -915,6 +944,9 @@ class Generator:
                 rules["R11"] = rules.get("R11", 0) + 1
             elif cmd == "body-start":
                 ed.insert(body_text_start, "\n" + tagged + "\n", 1)
+            elif cmd == "desugar-tuple-assign":
+                if desugar_tuple_assign(src, blo, bhi, ed, rules) == 0:
+                    raise LostAnchor("%s: %s has no destructuring assignment (R15)" % (file, path[-1]))
             elif cmd == "desugar-for":
                 am = re.match(r"(\d+)\s+(\S+)", sarg)
                 n = int(am.group(1))
@@ -1046,6 +1078,9 @@ class Generator:
                 pre = body
             elif sec["cmd"] == "body-end":
                 post = body
+            elif sec["cmd"] == "desugar-tuple-assign":
+                if desugar_tuple_assign(src, lo, hi, ed, rules) == 0:
+                    raise LostAnchor("%s: slice %s has no destructuring assignment (R15)" % (file, name))
             elif sec["cmd"] in ("loop", "loop-start", "loop-end", "desugar-for"):
                 # loops inside the slice, numbered in source order
                 sl_loops = []
